@@ -49,6 +49,11 @@ def cases(tier, seed):
                     for vk in ('real', 'complex', 'hermitian'):
                         add('eig', D=D, n=n, vals=vk, rep=rep)
             add('eigh_scaled', D=D, n=4, rep=rep)
+            if D >= 3:
+                for lowdeg in (1, 2):          # A(t) = A0 resp. A0 + A1 t propagated with a larger D: the output is not of low degree
+                    add('qr', D=D, M=4, N=3, rep=rep, lowdeg=lowdeg); add('qr_full', D=D, M=3, N=3, rep=rep, lowdeg=lowdeg)
+                    add('cholesky', D=D, n=3, rep=rep, lowdeg=lowdeg); add('lu', D=D, n=3, pivot=True, rep=rep, lowdeg=lowdeg)
+                    add('eigh', D=D, n=3, split=-1, rep=rep, lowdeg=lowdeg); add('svd', D=D, M=3, N=3, rep=rep, lowdeg=lowdeg)
             add('svd_eps', D=D, rep=rep)
             for n in (2, 3, 4, 5):
                 for split in (1, 2, 3, 0):                        # order at which the repeated block splits; 0 = never
@@ -73,7 +78,12 @@ def _prime(rng):
         pass
 
 
+_LOWDEG = None
+
+
 def run_case(ctx, case):
+    global _LOWDEG
+    _LOWDEG = case['params'].get('lowdeg')
     rng = gen.rng_of(case)
     if rng.random() < 0.35:
         _prime(rng)
@@ -84,6 +94,10 @@ def _series(rng, D, P, M, N, base, scale=0.5):
     x = scale * rng.normal(size=(D, P, M, N))
     for p in range(P):
         x[0, p] = base()
+    if _LOWDEG:
+        x[min(_LOWDEG, D):] = 0.0              # the input is a polynomial of lower degree than the truncation degree (A0 + A1 t, ...)
+    elif D >= 3 and rng.random() < 0.15:
+        x[int(rng.integers(1, D)):] = 0.0
     if P >= 3 and rng.random() < 0.4:
         x[0, P - 1] = x[0, 0]              # the same base point again after a different one (X, Y, X): only the higher coefficients differ
     elif P >= 2 and rng.random() < 0.2:
